@@ -5,6 +5,7 @@ failed), over the guard REGENERATED from the source. Staging (`flush_output_buff
 engines are covered by the model/oracle legs; see DESIGN.md §7 C02 for what remains by contract.
 -/
 import MinizProof.Gen.All
+import MinizProof.Gen.Facts
 import MinizProof.Lemmas.Finite
 set_option maxRecDepth 1000000
 open Fin'
@@ -53,6 +54,19 @@ theorem lz_bitbuffer_never_overflows :
     7 + max (LZ_LITERAL_BATCH * codeMax)
             (codeMax + maxOf LEN_EXTRA + codeMax + max (maxOf SMALL_DIST_EXTRA) (maxOf LARGE_DIST_EXTRA)) ≤ 64 ∧
     codeMax ≤ 15 ∧ G.idx DYN_CODE_SIZE_LIMITS 2 ≤ 7 := by decide +kernel
+
+/-- The three token engines keep hot registers (`src_pos`, `lookahead_size`, `lookahead_pos`, and in
+    `compress_normal` the deferred lazy match `saved_lit / saved_match_dist / saved_match_len`) in
+    locals. PROGRAM-TEXT fact regenerated from the source: at EVERY exit of every engine — the
+    early returns taken when a block flush in the middle of the input could not hand all its bytes
+    to the caller, and the normal end — every such local declared before the exit is stored back
+    to the field it caches. A suspended call therefore resumes with exactly the loop's state
+    (DESIGN.md §7 C02, `lazy_state_saved`); dropping one store loses or duplicates input bytes. -/
+theorem engine_exits_store_all_cached_registers :
+    Gen.Facts.engineExits.all (fun e => e.2.2.2.1.all (fun f => e.2.2.2.2.contains f)) = true ∧
+    Gen.Facts.engineExits.length ≥ 9 ∧
+    (Gen.Facts.engineExits.filter (fun e => e.2.2.2.1.length ≥ 6)).length ≥ 2 := by
+  decide +kernel
 
 example : guard_rejects TDEFLStatus.Okay TDEFLFlush.Finish TDEFLFlush.None = true := by decide +kernel
 example : guard_rejects TDEFLStatus.Okay TDEFLFlush.Sync TDEFLFlush.Finish = false := by decide +kernel
